@@ -134,6 +134,7 @@ def refine_vcs(ex, label, st0, body_outs, spec_outs):
         d, _ = split_defs(ex, s.st.pc, base)
         spec_defs.extend(d)
     for i, b in enumerate(body_outs):
+        i = b.st.pathid()
         kind = "raise" if b.kind == "raise" else "return"
         alts = []
         cands = [s for s in spec_outs if s.kind == kind and (kind != "raise" or s.exc == b.exc)]
